@@ -63,6 +63,8 @@ type Conf struct {
 	// BadTracing adds a tracing section that config.Load accepts and the tracing manager cannot apply (the CA file of
 	// its TLS configuration does not exist): the LAST fallible step of a reload.
 	BadTracing bool
+	// ResolveTimeout: global resolve_timeout (0 = 5m).
+	ResolveTimeout time.Duration
 }
 
 func d(x time.Duration) string {
@@ -136,7 +138,11 @@ func (c Conf) YAML(sink *Sink) string {
 	if c.Comment != "" {
 		sb.WriteString("# " + c.Comment + "\n")
 	}
-	sb.WriteString("global:\n  resolve_timeout: 5m\n  smtp_from: am@sink\n  smtp_smarthost: " + sink.SMTPAddr() + "\n  smtp_require_tls: false\n")
+	rt := "5m"
+	if c.ResolveTimeout > 0 {
+		rt = d(c.ResolveTimeout)
+	}
+	sb.WriteString("global:\n  resolve_timeout: " + rt + "\n  smtp_from: am@sink\n  smtp_smarthost: " + sink.SMTPAddr() + "\n  smtp_require_tls: false\n")
 	if len(c.Templates) > 0 {
 		sb.WriteString("templates:\n")
 		for _, t := range c.Templates {
